@@ -1,14 +1,19 @@
 """C06 - behaviour depends on the dataflow, not on wiring order or node sharing."""
+import re
 import engine_common as ec
 import engine_plugin as ep
 from vlib import Case, Stream
+import c06intern as ci
 
 ID = "C06"
-LEAN_MODULES = ["HgVerif.Props.C06", "HgVerif.Model.Engine", "HgVerif.Model.Extracted"]
+LEAN_MODULES = ["HgVerif.Props.C06", "HgVerif.Props.C06Den", "HgVerif.Props.C06Run", "HgVerif.Model.Engine", "HgVerif.Model.Extracted"] + ci.LEAN_MODULES
 THEOREMS = ["HgVerif.Intern.intern_equal_keys_share", "HgVerif.Intern.intern_distinct_keys_differ",
             "HgVerif.Intern.sinks_never_merged", "HgVerif.Intern.identical_sinks_distinct", "HgVerif.Intern.inv_addNode",
-            "HgVerif.Intern.addNode_id_lt", "HgVerif.Rank.kahn_free_irrelevant", "HgVerif.Sched.cycle_strictly_increasing"]
-CXX_TARGETS = ["hgv_engine"]
+            "HgVerif.Intern.addNode_id_lt", "HgVerif.Rank.kahn_free_irrelevant", "HgVerif.Sched.cycle_strictly_increasing",
+            "HgVerif.Flow.disc_beh", "HgVerif.Flow.scanFrom_eq_denSeq", "HgVerif.Flow.sol_unique", "HgVerif.Flow.denSeq_sol",
+            "HgVerif.Flow.cycle_eq_denSeq", "HgVerif.Flow.cycle_rank_independent", "HgVerif.Flow.fired_rank_independent",
+            "HgVerif.Flow.cycle_rank_independent_fun", "HgVerif.Flow.scanFrom_slots"] + ci.THEOREMS
+CXX_TARGETS = ["hgv_engine"] + ci.CXX_TARGETS
 USES_EXTRACT = True
 RULE = ("each case holds ONE dataflow wired in 3-4 different admissible statement orders (random linear extensions), run one after "
         "the other; dataflows contain duplicated sub-expressions (same definition with same scalar and inputs, other scalar, swapped "
@@ -45,7 +50,7 @@ def streams(rng, tier, seed):
     for i in range(n):
         p = ec.gen_sharing(rng) if i % 3 else ec.gen_flat(rng, sched=(i % 2 == 0))
         cases.append(make_case(rng, i, p, rng.choice([3, 4])))
-    return [Stream("engine-orders", [ec.ENGINE], ec.model_cmd("Engine"), cases, timeout=900)]
+    return [Stream("engine-orders", [ec.ENGINE], ec.model_cmd("Engine"), cases, timeout=900)] + ci.streams(rng, tier, seed)
 
 
 def _segments(case, out):
@@ -60,6 +65,8 @@ def _segments(case, out):
 
 
 def monitor(stream, case, out):
+    if stream.startswith("intern"):
+        return ci.monitor(stream, case, out)
     bad = []
     segs = _segments(case, out)
     views = []
@@ -78,16 +85,20 @@ def monitor(stream, case, out):
         built = next((e for e in t.events if e.startswith("built")), "")
         views.append((built, [(c["t"], sorted(e for e in c["ev"] if e[:2] in ec.USER_TAGS)) for c in t.cycles], t.result()))
         exp = ec.expected_node_count(p)
-        if built != "built nodes=%d" % exp:
+        # equal declarations MAY share (not must): fewer nodes than distinct keys + sinks means two different
+        # nodes were merged; more is a difference from the model only (reported by the correspondence)
+        m = re.match(r"built nodes=(\d+)", built)
+        if m and int(m.group(1)) < exp:
             bad.append("[sharing] node count %s but the dataflow has %d distinct value-node keys + sinks" % (built, exp))
     for i, v in enumerate(views[1:], 1):
-        if v != views[0]:
-            what = "node count" if v[0] != views[0][0] else "output streams"
-            bad.append("[order-indep] statement order %d gives different %s than order 0" % (i, what))
+        if v[1:] != views[0][1:]:
+            bad.append("[order-indep] statement order %d gives different output streams than order 0" % i)
     return bad[:3]
 
 
 def features(stream, case, out):
+    if stream.startswith("intern"):
+        return ci.features(stream, case, out)
     f = set()
     segs = _segments(case, out)
     f.add("orders:%d" % len(segs))
@@ -106,6 +117,8 @@ def features(stream, case, out):
 
 
 def nontrivial(stream, case, out):
+    if stream.startswith("intern"):
+        return ci.nontrivial(stream, case, out)
     segs = _segments(case, out)
     if len(segs) < 2:
         return False
@@ -114,6 +127,8 @@ def nontrivial(stream, case, out):
 
 
 def alarm_filter(stream, case, impl_out, model_out):
+    if stream.startswith("intern"):
+        return ci.alarm_filter(stream, case, impl_out, model_out)
     # compare run lines canonically; every other line must be equal
     for l, a, b in zip(case.lines, impl_out, model_out):
         if a != b:
@@ -123,6 +138,8 @@ def alarm_filter(stream, case, impl_out, model_out):
 
 
 def valid_case(stream, case, impl_out, model_out):
+    if stream.startswith("intern"):
+        return ci.valid_case(stream, case, impl_out, model_out)
     for o in (impl_out, model_out):
         if o is None:
             continue
